@@ -20,6 +20,7 @@ EVIDENCE = dict(
 
 
 def run(ctx):
+    ctx.extra_prefixes = ["docs_"]
     gen = ctx.tlc("AdmissionMC", "Admission_gen.cfg", workers=1, collect=True)
     seen, cases = set(), []
     for c in gen["cases"]:
@@ -51,4 +52,5 @@ def run(ctx):
 
 
 def replay(ctx, rp):
+    ctx.extra_prefixes = ["docs_"]
     return replay_generic(ctx, rp, ["c20", "replay"])
